@@ -102,6 +102,7 @@ def apply(op, args):
     if name == "ISub": y = x; y -= args[1]; return y
     if name == "IMul": y = x; y *= args[1]; return y
     if name == "IDiv": y = x; y /= args[1]; return y
+    if name == "MulAdd": return x.mul_add(args[1], args[2])
     if name == "Add": return x + args[1]
     if name == "Sub": return x - args[1]
     if name == "Mul": return x * args[1]
@@ -148,6 +149,12 @@ def steps_for(nregs, must_use_newest):
             for j in range(nregs):
                 if not must_use_newest or i == newest or j == newest:
                     out.append((op, [i, j]))
+    # the fused-looking method x.mul_add(a, b) = x * a + b (rounded as the Rust default: twice)
+    for i in range(nregs):
+        for j in range(nregs):
+            k = (j + 1) % nregs
+            if not must_use_newest or newest in (i, j, k):
+                out.append(({"name": "MulAdd"}, [i, j, k]))
     return out
 
 def record_prog(cls, inputs, steps, result):
@@ -156,7 +163,8 @@ def record_prog(cls, inputs, steps, result):
           "result": [bits(v) for v in FLAT[cls](result)], "repr": repr(result)})
 
 def explore_class(cls, depth):
-    ins = [start_values(cls, 0.625, 0), start_values(cls, 1.375, 5)]
+    # the third register is a constant written with explicit zero parts (a number that "looks like" a float)
+    ins = [start_values(cls, 0.625, 0), start_values(cls, 1.375, 5), [3.0] + [0.0] * (NPARTS[cls] - 1)]
     regs0 = [build(cls, v) for v in ins]
     want0 = [[bits(a) for a in FLAT[cls](r)] for r in regs0]
     # constructors and getters: the flattened constructed value must be the constructor arguments
@@ -165,7 +173,7 @@ def explore_class(cls, depth):
     fr = getattr(nd, cls).from_re(regs0[0].value if cls in ("Dual64", "Dual2_64", "Dual3_64", "HyperDual64", "HyperHyperDual64") else regs0[0].value)
     emit({"kind": "from_re", "class": cls, "arg": [bits(a) for a in (flat_dual64(regs0[0].value) if cls.endswith("Dual64") and cls not in ("Dual64", "HyperDual64", "HyperHyperDual64") else [regs0[0].value])],
           "result": [bits(a) for a in FLAT[cls](fr)], "repr": repr(fr)})
-    l1 = steps_for(2, False)
+    l1 = steps_for(3, False)
     for op1, a1 in l1:
         try:
             r2 = apply(op1, [regs0[i] for i in a1])
@@ -181,7 +189,7 @@ def explore_class(cls, depth):
             continue
         regs = regs0 + [r2]
         want2 = want0 + [[bits(v) for v in FLAT[cls](r2)]]
-        for op2, a2 in steps_for(3, True):
+        for op2, a2 in steps_for(4, True):
             try:
                 r3 = apply(op2, [regs[i] for i in a2])
             except BaseException as e:
